@@ -155,6 +155,15 @@ def knownNonFs : List String :=
     breaks this obligation. -/
 theorem ext_callees_classified : extCallees.all (fun c => knownNonFs.contains c) = true := by decide
 
+/-- data flow into the search-path fallback of `inc_open` (`sprintf (buf, "%s/%s", inc_list[i], name)`, the one
+    `open` of the loader that is allow-listed above): EVERY store into the global `inc_list` anywhere in the scanned
+    files is either 0 or a copy of a local variable that a PRECEDING `legal_path ()` call of the same function guards,
+    with no assignment to that variable in between (regenerated from the AST; `set_inc_list`).  Together with
+    `include_path_confined_any_config` (model) this replaces trust in the allow-list entry by an obligation. -/
+theorem inc_list_stores_guarded :
+    globalStores.all (fun g => g.2.2.1 == "inc_list" && (g.2.2.2.2 == "null" || g.2.2.2.2 == "guarded")) = true ∧
+    globalStores.any (fun g => g.2.2.2.2 == "guarded") = true := by decide
+
 /-- every character array with static storage duration in the files of the file efuns, the editor, the lexer and the
     saved-binary code, with the reason why it cannot carry a PATH across a master apply (where a re-entrant master —
     valid_read / valid_write calling file efuns themselves — could overwrite it; seeded change C15-5 made
